@@ -75,6 +75,7 @@ fixed("C02", "json-out *.* string-altered chars=backslash", "24a516a", "NaturalL
 fixed("C02", "json-out Object.Source missing *", "123191c", "Source.MarshalJSON lost the media type when the content had nothing to write (flag overwritten)", "random layer: Source{MediaType, Content:[-:\"\"]}")
 fixed("C02", "json-out Object invalid-json chars=benign", "1a4b390", "a language map holding an untagged (nil language tag) value was written without a member name: invalid JSON", "hostile layer: method Name.map-with-niltag")
 fixed("C06", "text json * * escape-lookalike *", "0326d7f", "decoded natural-language text was parsed as JSON and unescaped a second time: C:\\new came back with a line feed, 42/true/null/[1,2]/\"q\" came back empty or altered, language-map entries lost surrounding quotes", "constants layer: Object.Name json-pkg \"C:\\\\new\"")
+fixed("C06", "text json value-* * escape-lookalike *", "96f7839", "NaturalLanguageValues.UnmarshalJSON and LangRefValue.UnmarshalJSON ran unescape() over the string the JSON parser had already decoded: a name/summary/content value stored and read back on its own lost or altered backslash sequences (two backslashes came back as one, C:\\new with a line feed); found after the automated mutation analysis showed the stand-alone pair unobserved", "value-pairs layer: value form=0 json-methods \"\\\\\\\\\"")
 fixed("C06", "text json Source.Content * * *", "1020738", "a source's decoded content was parsed as a JSON document again", "constants layer: Object.Source.Content json-pkg \"42\"")
 known("C02", "json-out * dup-member *Map.* chars=*", "a natural-language list holding two values under one language tag (possible through Append/Add, and what the binary codec round-trips) is written as a language map that repeats the tag as member name: {\"nameMap\":{\"en\":\"a\",\"en\":\"b\"}}. "
       "Not repaired: JSON language maps hold one value per tag; whether to write an array per tag (the decoder would have to learn it) or to keep the first value only is a design decision for the maintainers.",
